@@ -208,7 +208,31 @@ func goodValue(r *rng.R, t string) string {
 func typeEdit(r *rng.R, cs *gen.Case) (kind, where string) {
 	sc := cs.Script
 	for attempt := 0; attempt < 10; attempt++ {
-		switch r.Intn(12) {
+		switch r.Intn(14) {
+		case 12, 13: // unknown declared type, on a plain or on a metadata-backed variable
+			var plain []*gen.VarDecl
+			for _, d := range sc.Vars {
+				if d.Origin == nil {
+					plain = append(plain, d)
+				}
+			}
+			if len(plain) == 0 {
+				continue
+			}
+			d := plain[r.Intn(len(plain))]
+			where := "vars"
+			if r.Bool() {
+				// read the same text from the store's metadata (which does hold it)
+				d.Origin = &gen.Call{Name: "meta", Args: []gen.Expr{gen.A("cfg"), gen.S("key_" + d.Name)}}
+				if cs.Meta["cfg"] == nil {
+					cs.Meta["cfg"] = map[string]string{}
+				}
+				cs.Meta["cfg"]["key_"+d.Name] = cs.Vars[d.Name]
+				delete(cs.Vars, d.Name)
+				where = "vars>meta-origin"
+			}
+			d.Type = r.Pick("nonsense", "int", "accounts", "money")
+			return "unknown-type", where
 		case 10, 11: // a variable origin that refers to a declaration that comes later, or to itself
 			var accts []int
 			for i, d := range sc.Vars {
